@@ -84,6 +84,12 @@ CLAIMED = {
          "JUnitReporter and hostile names/messages/captured output chosen symbolically: reports parse with expat, test cases == "
          "scenarios with final status, counters == entries, failure/error entries name the step or hook", "DESIGN.md 4/C16",
          "SMT side queries (z3 LIA, cvc5 strings) + symbolic execution of real code (path space by solver)"),
+ "C20": ("userdata: parse_user_define on ONE symbolic choice over a grammar-generated pool of ~2600 -D texts (string operations lifted "
+         "pointwise, equality with the documented parse decided by z3) and the typed getters; precedence: the real Configuration built in "
+         "scratch directories for every flag/choice/scalar option of the live OPTIONS table with symbolic presence in ini/pyproject.toml "
+         "and on the command line, seeded option triples, list order, config-file-relative paths/outfiles, -D over file userdata "
+         "(this half is exhaustive path exploration rather than symbolic reasoning)", "DESIGN.md 4/C20",
+         "symbolic execution of real code + z3 (finite alphabet merged; presence flags enumerated by solver)"),
 }
 NA_REASON = "check not built yet in this round (planned, see DESIGN.md section 4)"
 checks = []
